@@ -73,6 +73,15 @@ fn patterned(len: usize, salt: u8) -> Vec<u8> {
 
 static TREE_PATH: Mutex<Option<PathBuf>> = Mutex::new(None);
 
+/// Remove the temp tree if one exists (used on abnormal exits).
+pub fn cleanup() {
+    if let Ok(g) = TREE_PATH.lock() {
+        if let Some(p) = g.as_ref() {
+            let _ = std::fs::remove_dir_all(p);
+        }
+    }
+}
+
 fn machinery_exit(msg: String) -> ! {
     eprintln!("MACHINERY: {msg}");
     if let Ok(g) = TREE_PATH.lock() {
